@@ -29,6 +29,7 @@ type c10Case struct {
 	Touched []int `json:"touched,omitempty"` // indexes of keys that are kept alive
 	Rounds  int   `json:"rounds,omitempty"`
 	ByPut   bool  `json:"by_put,omitempty"` // keep alive with Put instead of Get
+	Fill    int   `json:"fill,omitempty"`   // other keys written after the asserted ones: with a small table size the asserted keys end up in older tables
 }
 
 func genC10Limits(t *rapid.T) *c10Case {
@@ -189,6 +190,11 @@ func genC10Idle(t *rapid.T) *c10Case {
 	}
 	c.Rounds = rapid.IntRange(4, 7).Draw(t, "rounds")
 	c.ByPut = rapid.Bool().Draw(t, "byPut")
+	if rapid.Bool().Draw(t, "multiTable") {
+		c.Opts.TableSize = 512
+		c.Opts.MaxIdleMs = rapid.SampledFrom([]int64{250, 400}).Draw(t, "idleMulti")
+		c.Fill = c.Opts.Partitions * rapid.IntRange(12, 20).Draw(t, "fill")
+	}
 	return c
 }
 
@@ -221,6 +227,12 @@ func runC10Idle(c *c10Case) (v *vcommon.Violation, nontrivial, inconclusive bool
 			return nil, false, true
 		}
 		lastTouch[i] = time.Now()
+	}
+	for i := 0; i < c.Fill; i++ {
+		// not asserted: these push the keys above into older (read-only) tables of their fragments
+		if err := dm.Put(ctx, fmt.Sprintf("fill-%d", i), []byte("ffffffffffffffffffff")); err != nil {
+			return nil, false, true
+		}
 	}
 	start := time.Now()
 	// keep the touched keys alive: one access every W/3
@@ -258,8 +270,17 @@ func runC10Idle(c *c10Case) (v *vcommon.Violation, nontrivial, inconclusive bool
 	if time.Since(start) <= W+20*time.Millisecond {
 		time.Sleep(W + 25*time.Millisecond - time.Since(start))
 	}
-	for i := 0; i < c.Keys; i++ {
-		cl.ownerOf(name, keyName(i)).db.dmap.VerifEvict(name, keyName(i))
+	// One eviction scan samples at most 19 keys of a fragment, newest table first. Without filler keys a fragment
+	// holds fewer than that and one scan decides; with them "eventually" takes a few scans: the (equally idle)
+	// filler keys in the newer tables go first.
+	scans := 1
+	if c.Fill > 0 {
+		scans = 2 + (c.Fill/c.Opts.Partitions+c.Keys)/4
+	}
+	for s := 0; s < scans; s++ {
+		for i := 0; i < c.Keys; i++ {
+			cl.ownerOf(name, keyName(i)).db.dmap.VerifEvict(name, keyName(i))
+		}
 	}
 	for i := 0; i < c.Keys; i++ {
 		key := keyName(i)
@@ -270,6 +291,32 @@ func runC10Idle(c *c10Case) (v *vcommon.Violation, nontrivial, inconclusive bool
 			if !onPrimary && maxGap[i] < W-20*time.Millisecond && time.Since(lastTouch[i]) < W-20*time.Millisecond {
 				return bad("active-key-evicted", "key %s was accessed at most %v apart (idle window %v) but is gone after the eviction scan", key, maxGap[i], W), nontrivial, false
 			}
+		}
+	}
+	if c.Fill > 0 {
+		// Evicting the filler keys leaves garbage; the compaction worker then moves the surviving entries, and
+		// its table walk counts as an access (Table.Range refreshes LASTACCESS). "Eventually" therefore means:
+		// within a few more windows, with eviction scans going on as the background workers would do.
+		deadline := time.Now().Add(3*W + time.Second)
+		for time.Now().Before(deadline) {
+			pending := false
+			for i := 0; i < c.Keys; i++ {
+				if owner := cl.ownerOf(name, keyName(i)); !touched[i] && owner.db.dmap.VerifCheck(name, keyName(i), partitions.PRIMARY) {
+					pending = true
+					owner.db.dmap.VerifEvict(name, keyName(i))
+				}
+			}
+			if !pending {
+				break
+			}
+			time.Sleep(40 * time.Millisecond)
+		}
+	}
+	for i := 0; i < c.Keys; i++ {
+		key := keyName(i)
+		owner := cl.ownerOf(name, key)
+		onPrimary := owner.db.dmap.VerifCheck(name, key, partitions.PRIMARY)
+		if touched[i] {
 			continue
 		}
 		nontrivial = true
@@ -346,6 +393,9 @@ func c10Test(t *testing.T, kind string) {
 		}
 		if c.Skew {
 			labels = append(labels, "skew")
+		}
+		if c.Fill > 0 {
+			labels = append(labels, "idle:older-tables")
 		}
 		col.Record(vcommon.MustJSON(c), nt, labels...)
 		if v != nil {
